@@ -430,7 +430,17 @@ def gen_texts(r, pool_tr, pool_pe, n):
             topic = h + r.choice(["0", "ab", h])
         elif tv < 0.68:
             i = r.randrange(40)
-            topic = h[:i] + r.choice(["g", "z", " ", "-", "é", "+", "%20", "%67", ":", "x"]) + h[i + 1:]
+            # one character that is no hex digit - among them what a number parser takes for part of a number (a sign, white
+            # space, an underscore, a radix prefix), escaped so that it reaches the topic as that character (added after seeded
+            # change C10-13: pairs decoded with from_str_radix accepted `+a`)
+            topic = h[:i] + r.choice(["g", "z", " ", "-", "é", "+", "%20", "%67", ":", "x", "%2B", "%2b", "%2D", "_", "%09", "%0A", "%00",
+                                      "X", "%C2%A0", "%EF%BC%91"]) + h[i + 1:]
+            if r.random() < 0.4:
+                # the same at the first character of a pair, in one to twenty pairs
+                t = list(h)
+                for j in r.sample(range(20), r.choice([1, 1, 2, 20])):
+                    t[2 * j] = r.choice(["%2B", "%2D", "%20", "0x"[0:1] + "", "%2B"])
+                topic = "".join(t)
         elif tv < 0.76:
             i = r.randrange(40)
             topic = h[:i] + "%%%02x" % ord(h[i]) + h[i + 1:]          # an escaped hex digit: still 40 hex after decoding
@@ -1163,7 +1173,25 @@ def run(ctx):
     e2e = []
     for k, (a, t) in enumerate(gen_tracker_sets(r, ok_tr, ctx.n(150, 3000))):
         sel = [gen_indices(r) for _ in range(r.choice([0, 1, 1, 2]))]
-        e2e.append(dict(name=DEFECT_NAME if k == 0 else gen_name(r), announce=a, tiers=t, files=r.choice([0, 0, 3]),
+        nfiles = r.choice([0, 0, 3, 1, 5])
+        if nfiles and r.random() < 0.5:
+            # selections that stand in a relation to the torrent's own file list: exactly every index (permuted, repeated, spread
+            # over several options), all but one, one beyond the end (added after seeded change C10-14: a selection naming
+            # every file was "normalised" away)
+            allidx = list(range(nfiles))
+            r.shuffle(allidx)
+            form = r.randrange(5)
+            if form == 0:
+                sel = [allidx]
+            elif form == 1:
+                sel = [allidx + [r.choice(allidx)]]
+            elif form == 2:
+                sel = [[i] for i in allidx]
+            elif form == 3:
+                sel = [allidx[1:]] if nfiles > 1 else [[0, 1]]
+            else:
+                sel = [allidx + [nfiles]]
+        e2e.append(dict(name=DEFECT_NAME if k == 0 else gen_name(r), announce=a, tiers=t, files=nfiles,
                         peer_args=[r.choice(ok_pe) for _ in range(r.choice([0, 1, 2, 3]))], select_args=[g for g in sel if g]))
     run_e2e_link(ctx, e2e, norm)
     cr = []
